@@ -148,6 +148,16 @@ func (s *c14state) mutations() []*c14state {
 		v := m.v
 		mk("repo:"+m.d, func(c *c14state) { c.Repo = v })
 	}
+	rv := repoVariants(s.Repo)
+	rk := make([]string, 0, len(rv))
+	for d := range rv {
+		rk = append(rk, d)
+	}
+	sort.Strings(rk)
+	for _, d := range rk {
+		v := rv[d]
+		mk("repo:"+d, func(c *c14state) { c.Repo = v })
+	}
 	// boundary shifts across adjacent fields of the payload
 	if cmd := s.Step.Get("command"); cmd != nil && cmd.K == docgen.KStr && len(cmd.S) > 0 {
 		mk("boundary:command|repository_url", func(c *c14state) {
